@@ -106,6 +106,25 @@ V_C15(pst, r) ==
                 ELSE {"MovedWithoutGrowth"})
           ELSE {})
 
+(* ---- beyond the listed properties (DESIGN 3.9 / 11.8): the caller-named extra key-value tables behave  *)
+(* like maps (put overwrites, delete removes, a refused put / delete changes nothing) and no store call    *)
+(* touches them; the used size of the event map never shrinks within one file generation.                  *)
+XKey(e) == <<e[1], e[2]>>
+V_MISC(pst, r) ==
+    LET pre == ToSet(pst.extra)  post == ToSet(r.st.extra) IN
+         (IF r.k = "xput"
+          THEN (IF r.res = "ok"
+                THEN (IF post = {e \in pre : XKey(e) # <<r.x[1], r.x[2]>>} \cup {<<r.x[1], r.x[2], r.x[3]>>} THEN {} ELSE {"ExtraPut"})
+                ELSE (IF post = pre THEN {} ELSE {"ExtraRefusedPutChanged"}))
+          ELSE IF r.k = "xdel"
+          THEN (IF r.res = "ok"
+                THEN (IF post = {e \in pre : XKey(e) # <<r.x[1], r.x[2]>>} THEN {} ELSE {"ExtraDel"})
+                ELSE (IF post = pre THEN {} ELSE {"ExtraRefusedDelChanged"}))
+          ELSE (IF post = pre THEN {} ELSE {"ExtraTouched"}))
+    \cup (IF Cardinality({XKey(e) : e \in post}) = Len(r.st.extra) THEN {} ELSE {"ExtraDuplicateKey"})
+    \cup (IF pst.gen = r.st.gen /\ r.st.end < pst.end THEN {"EndShrank"} ELSE {})
+    \cup (IF r.st.end <= r.st.flen THEN {} ELSE {"EndBeyondFile"})
+
 (* queries recorded with the line (probe filters F): C17 path agreement, C12/C16 "every query" *)
 V_Q17(r) == IF \A i \in DOMAIN r.q : QueryOK(ToSet(r.st.retr), F[i], r.q[i]) THEN {} ELSE {"PathsAgree"}
 V_QSame(pst_q, r) == IF Len(pst_q) = Len(r.q) /\ QV(pst_q) = QV(r.q) THEN {} ELSE {"QueryChanged"}
@@ -120,6 +139,7 @@ Viol(pst, pq, r) ==
       [] Prop = "C17" -> V_C17(pst, r) \cup V_Q17(r)
       [] Prop = "C18" -> V_C18(pst, r) \cup (IF r.k \in {"remove", "vanish"} THEN V_Q17(r) ELSE {})
       [] Prop = "C15" -> V_C15(pst, r)
+      [] Prop = "MISC" -> V_MISC(pst, r)
       [] Prop = "FRAME" -> LET pre == Abs(pst)  post == Abs(r.st)  c == [k |-> r.k, a |-> r.a] IN
                                IF Frame(pre, c, r.res, post) THEN {} ELSE {"Frame"}
       [] OTHER -> {}
